@@ -41,12 +41,15 @@ class SimFS:
         self.crash_fired = None
         self.error_at = {}  # op index -> errno : raise OSError instead of performing the op
         self.errors_fired = []
+        self.diskfull_at = None  # op index of the write at which the disk becomes full
+        self.diskfull_frac = 0.5  # fraction of that write which still fits (a *short write*, no error yet)
+        self.full = False  # once full, every further write raises ENOSPC (create / rename / unlink still work)
         self.on_op = None  # callback(index, op) before the op is applied (markers, SIGINT delivery)
         self.record = True
         self.bytes_written = 0
 
     # ------------------------------------------------------------------ core
-    def _mutate(self, op):
+    def _mutate(self, op, short_ok=False):
         """op = (kind, path, ...).  Returns number of bytes written for writes."""
         if self.frozen:
             return len(op[3]) if op[0] == 'write' else None
@@ -54,6 +57,22 @@ class SimFS:
         self.n_mut += 1
         if self.on_op is not None:
             self.on_op(idx, op)
+        if op[0] == 'write':
+            if self.full:
+                self.errors_fired.append([idx, errno.ENOSPC, 'write(disk full)'])
+                raise OSError(errno.ENOSPC, 'injected: No space left on device')
+            if self.diskfull_at is not None and idx >= self.diskfull_at:
+                self.full = True
+                n = int(len(op[3]) * self.diskfull_frac) if short_ok else 0
+                self.errors_fired.append([idx, errno.ENOSPC, 'short write %d/%d' % (n, len(op[3]))])
+                if n <= 0:
+                    raise OSError(errno.ENOSPC, 'injected: No space left on device')
+                # POSIX short write: the prefix that still fits is written and its length returned, no error
+                short = ('write', op[1], op[2], bytes(op[3][:n]))
+                self._apply(short)
+                if self.record:
+                    self.oplog.append(short)
+                return n
         err = self.error_at.pop(idx, None)
         if err is not None:
             self.errors_fired.append([idx, err, op[0]])
@@ -156,6 +175,10 @@ class SimRawFile(io.RawIOBase):
         self._buf = fs.files.get(path)
         self.name = path
         self.mode = mode
+        # whether a short write may be reported to the caller: yes for files opened through open()/gzip (the
+        # io / pickle layers above decide what to do with it), no under h5py's file-object driver, which
+        # ignores the return value although the POSIX driver used in production retries
+        self.short_ok = True
 
     def _current_path(self):
         # find the name currently bound to our inode (rename while open is legal)
@@ -191,9 +214,10 @@ class SimRawFile(io.RawIOBase):
             return 0
         if 'a' in self._mode and self._buf is not None:
             self._pos = len(self._buf)
-        self.fs._mutate(('write', self._current_path(), self._pos, data))
-        self._pos += len(data)
-        return len(data)
+        n = self.fs._mutate(('write', self._current_path(), self._pos, data), short_ok=self.short_ok)
+        n = len(data) if n is None else n
+        self._pos += n
+        return n
 
     def seek(self, off, whence=0):
         size = len(self._buf) if self._buf is not None else 0
@@ -237,6 +261,11 @@ def sim_open(filename, mode='r', *args, **kwargs):
     path = norm(filename)
     binary = 'b' in mode
     raw = SimRawFile(fs, path, mode.replace('b', '').replace('t', ''))
+    buffering = kwargs.get('buffering', args[0] if args else -1)
+    if buffering == 0:
+        if not binary:
+            raise ValueError("can't have unbuffered text I/O")
+        return raw
     if 'r' in mode and '+' not in mode:
         f = io.BufferedReader(raw)
     elif '+' in mode:
@@ -339,9 +368,11 @@ class _H5pyProxy:
             if mode != 'w' and fs.exists(path):
                 raise FileExistsError(errno.EEXIST, 'File exists (simfs)', path)
             raw = SimRawFile(fs, path, 'w+')
+            raw.short_ok = False
             return _H5File(raw, 'w', **kw)
         if mode == 'a':
             raw = SimRawFile(fs, path, 'r+' if fs.exists(path) else 'w+')
+            raw.short_ok = False
             return _H5File(raw, 'a', **kw)
         if mode == 'r':
             raw = SimRawFile(fs, path, 'r')
